@@ -1,13 +1,27 @@
 (* GenC20c.v — LATE file of C20 (compiled after GenC20.v, GenC20b.v, GenC20s.v, GenC20p.v, GenC20m.v): the headline theorems of
    C20.v restated for the REGENERATED constructors, from the equalities run_ctor gen_X = facade FX proved in those files. *)
 From Coq Require Import String.
-From Verif Require Import Base Sorter Value Seq Coll Pool PoolRun Params SetProofs AssocProofs Facade FacadeProofs ModuleLang ModuleSem ModuleFacts ModuleTactics GenModule GenC20 GenC20b GenC20r GenC20s GenC20p GenC20m.
+From Verif Require Import Base Sorter Value Seq Coll Pool PoolRun Params SetProofs AssocProofs Facade FacadeProofs ModuleLang ModuleSem ModuleFacts ModuleTactics GenModule GenC20 GenC20b GenC20r GenC20s GenC20t GenC20p GenC20m.
 Open Scope Z_scope.
 Open Scope list_scope.
 
 (* ====================================================================================================== *)
 (* the headline theorems of C20.v restated for the REGENERATED constructors                                 *)
 (* ====================================================================================================== *)
+(* the Set constructor: its two halves (GenC20s.v with a collator, GenC20t.v without) *)
+Lemma set_post : forall args0 tk tv f s scr, length scr = GenC20s.Kset ->
+  result_of (exec args0 (30 + f) (ctx0 tk tv) (env_set s scr) (post_body gen_Set)) =
+  out_map FO (out_map FObj (finish_set tv s)).
+Proof.
+  intros args0 tk tv f s scr L. destruct (s_coll s) as [c|] eqn:E.
+  - exact (set_post_collator args0 tk tv f s scr c L E).
+  - exact (set_post_plain args0 tk tv f s scr L E).
+Qed.
+
+Theorem gen_Set_is_the_model : forall tk tv args, Forall size_ok args ->
+  run_ctor gen_Set tk tv args = out_map FO (facade FSet tk tv args).
+Proof. ctor_main gen_Set FSet env_set GenC20s.Kset set_step set_post. Qed.
+
 Definition gen_of (k : fkind) : gen_ctor :=
   match k with
   | FAssociation => gen_Association | FArray => gen_Array | FCatalog => gen_Catalog | FList => gen_List
